@@ -55,6 +55,7 @@ func genC12(rng *rand.Rand, tier string) *core.Plan {
 	p.Cfg["route"] = rng.Intn(2) // the rows find their shard and family through lindb's broker-side routing
 	p.Cfg["multi"] = rng.Intn(2) // statements may select two columns
 	p.Cfg["failleaf"] = rng.Intn(2)
+	p.Cfg["fx"] = rng.Intn(2) // histograms; rate, arithmetic, quantile, functions on last / first fields
 	return p
 }
 
@@ -113,7 +114,7 @@ func runC12(c *core.RunCtx) {
 
 func queryC12(c *core.RunCtx, ra, rk *run, op core.Op) {
 	rng := rand.New(rand.NewSource(atoi(op.S)))
-	q := genQuery(rng, "C11", c.Plan.C("families", 1), c.Plan.C("multi", 0) == 1)
+	q := genQuery(rng, "C11", c.Plan.C("families", 1), c.Plan.C("multi", 0) == 1, c.Plan.C("fx", 0) == 1)
 	sqlText := q.sql()
 	before := len(rk.points)
 	exp := rk.expected(q, before)
